@@ -178,7 +178,8 @@ EntryHard(name, nabs, tg, tabs) ==
             ELSE fs' = [fs EXCEPT ![new.p] = File(fs[old.p].ino)] /\ UNCHANGED <<data, nextIno, failed, unknownEscape>>
 
 Names == { <<<<"d","a">>, FALSE>>, <<<<"d","b">>, FALSE>>, <<<<"d","e">>, FALSE>>, <<<<"d","a","x">>, FALSE>>,
-           <<<<"d","..","x">>, FALSE>>, <<<<"w","d","a">>, TRUE>>, <<<<"v">>, TRUE>> }
+           <<<<"d","..","x">>, FALSE>>, <<<<"w","d","a">>, TRUE>>, <<<<"v">>, TRUE>>,
+           <<<<"d","e","x","y">>, FALSE>> }      \* two missing levels below a possible link
 Targets == { <<<<".">>, FALSE>>, <<<<"..">>, FALSE>>, <<<<"a">>, FALSE>>, <<<<"b">>, FALSE>>, <<<<"v">>, FALSE>>,
              <<<<"a","..">>, FALSE>>, <<<<"b","..">>, FALSE>>, <<<<"a","..","v">>, FALSE>>, <<<<"b","..","v">>, FALSE>>,
              <<<<"b","..","..","v">>, FALSE>>, <<<<"..","v">>, FALSE>>, <<<<"..","..","v">>, FALSE>>, <<<<"v">>, TRUE>>,
@@ -201,6 +202,10 @@ Next == /\ ~failed /\ nextIno < 8 /\ Len(hist) < Depth
              \/ (nm \in Names /\ EntryReg(nm[1], nm[2]) /\ hist' = Append(hist, E("reg", nm, NoTg)))
              \/ (nm \in Names /\ EntryDir(nm[1], nm[2]) /\ hist' = Append(hist, E("dir", nm, NoTg)))
              \/ (nm \in Titles /\ Named /\ EntryNamed(nm[1], nm[2]) /\ hist' = Append(hist, E("named", nm, NoTg)))
+             \* a manifest that lists the bytes of the existing file w/x under another title: the store restores the
+             \* duplicate under that title, which must pass the same checks as a named push
+             \/ (nm \in Titles /\ Named /\ fs[<<"w","x">>].t = "file" /\ EntryNamed(nm[1], nm[2])
+                   /\ hist' = Append(hist, E("restore", nm, NoTg)))
              \/ \E tg \in Targets :
                   /\ nm \in Names
                   /\ \/ (EntrySym(nm[1], nm[2], tg[1], tg[2]) /\ hist' = Append(hist, E("sym", nm, tg)))
